@@ -28,7 +28,7 @@ theorem stop_return_shape : ∀ a ∈ clientActs, isStopReturn a → ∀ rt, (a.
     each_action ha <;> simp at hn
     intro rt; exact ⟨rfl, rfl⟩
   · intro s a ha hn; unfold clAcc at ha; unfold isStopReturn at hn; each_action ha <;> simp at hn
-  · intro s r a ha hn; unfold clientFlush at ha; unfold isStopReturn at hn; each_action ha <;> simp at hn
+  · intro s r _ a ha hn; unfold clientFlush at ha; unfold isStopReturn at hn; each_action ha <;> simp at hn
 
 /-- (1) **When stop/abort returns, the runtime is Armed and everything is at rest**: in any reachable state in which
 the returning action of `acquire_stop` is enabled, firing it gives state Armed, the client back at its next call, and
